@@ -206,6 +206,61 @@ fn serialize_repeat(text: &str) -> Result<(), String> {
         let parsed = Program::from_str(text).map_err(|e| format!("{e}"))?;
         distinct.insert(parsed.to_quil().map_err(|e| format!("{e}"))?);
     }
+    // "Within each definition kind, output follows the order in which each definition was first added, and a
+    // redefinition with the same key replaces the earlier one in place": the statements of the text are parsed one
+    // by one to recover the sequence that was added
+    let mut statements: Vec<String> = vec![];
+    for line in text.lines() {
+        if line.trim().is_empty() {
+            continue;
+        }
+        if line.starts_with(char::is_whitespace) && !statements.is_empty() {
+            let last = statements.last_mut().unwrap();
+            last.push('\n');
+            last.push_str(line);
+        } else {
+            statements.push(line.to_string());
+        }
+    }
+    let mut added: Vec<Instruction> = vec![];
+    for st in &statements {
+        if let Ok(p) = Program::from_str(st) {
+            added.extend(p.into_instructions());
+        }
+    }
+    fn first_added_order<K: PartialEq + Clone, V: Clone>(items: Vec<(K, V)>) -> Vec<(K, V)> {
+        let mut out: Vec<(K, V)> = vec![];
+        for (k, v) in items {
+            if let Some(slot) = out.iter_mut().find(|(k2, _)| *k2 == k) {
+                slot.1 = v;
+            } else {
+                out.push((k, v));
+            }
+        }
+        out
+    }
+    let cals = first_added_order(added.iter().filter_map(|i| if let Instruction::CalibrationDefinition(c) = i { Some((c.identifier.clone(), c.clone())) } else { None }).collect());
+    let got: Vec<_> = first.calibrations.iter_calibrations().cloned().collect();
+    if got != cals.iter().map(|(_, c)| c.clone()).collect::<Vec<_>>() {
+        return Err("DEFCALs are not listed in the order in which each was first added (redefinitions in place)".to_string());
+    }
+    let mcals = first_added_order(added.iter().filter_map(|i| if let Instruction::MeasureCalibrationDefinition(c) = i { Some((c.identifier.clone(), c.clone())) } else { None }).collect());
+    let got: Vec<_> = first.calibrations.iter_measure_calibrations().cloned().collect();
+    if got != mcals.iter().map(|(_, c)| c.clone()).collect::<Vec<_>>() {
+        return Err("DEFCAL MEASUREs are not listed in the order in which each was first added (redefinitions in place)".to_string());
+    }
+    let gates = first_added_order(added.iter().filter_map(|i| if let Instruction::GateDefinition(g) = i { Some((g.name.clone(), g.clone())) } else { None }).collect());
+    if first.gate_definitions.iter().map(|(k, v)| (k.clone(), v.clone())).collect::<Vec<_>>() != gates {
+        return Err("DEFGATEs are not listed in the order in which each was first added (redefinitions in place)".to_string());
+    }
+    let decls = first_added_order(added.iter().filter_map(|i| if let Instruction::Declaration(d) = i { Some((d.name.clone(), d.clone())) } else { None }).collect());
+    if first.memory_regions.keys().cloned().collect::<Vec<_>>() != decls.iter().map(|(k, _)| k.clone()).collect::<Vec<_>>() {
+        return Err("DECLAREs are not listed in the order in which each was first added".to_string());
+    }
+    let waves = first_added_order(added.iter().filter_map(|i| if let Instruction::WaveformDefinition(w) = i { Some((w.name.clone(), w.definition.clone())) } else { None }).collect());
+    if first.waveforms.iter().map(|(k, v)| (k.clone(), v.clone())).collect::<Vec<_>>() != waves {
+        return Err("DEFWAVEFORMs are not listed in the order in which each was first added (redefinitions in place)".to_string());
+    }
     println!("{} distinct serializations of the same instruction sequence", distinct.len());
     if distinct.len() > 1 {
         let mut it = distinct.iter();
@@ -654,8 +709,8 @@ fn loop_runs(text: &str) -> Result<(), String> {
     let (mut pc, mut steps) = (0usize, 0usize);
     while pc < listing.len() {
         steps += 1;
-        if steps > 200_000 {
-            return Err(format!("the wrapped program did not stop within 200000 steps (n = {n}, counter {}[{}])", counter.name, counter.index));
+        if steps > 3_000_000 {
+            return Err(format!("the wrapped program did not stop within 3000000 steps (n = {n}, counter {}[{}])", counter.name, counter.index));
         }
         match &listing[pc] {
             Instruction::Move(m) => {
